@@ -189,6 +189,24 @@ fn main() {
             println!("no failing input among {} (distribution of 10 items over 3 files, arrival order) pairs", tried);
             std::process::exit(0);
         }
+        Some("codable") => {
+            // codable : run Swift::post_generation twice into a fresh folder; exit 1 when the second (unchanged) run touches Codable.swift
+            use typeshare_core::language::{Language, Swift};
+            use std::sync::atomic::AtomicBool;
+            let dir = std::env::temp_dir().join(format!("verif-replay-codable-{}", std::process::id()));
+            let _ = std::fs::remove_dir_all(&dir);
+            std::fs::create_dir_all(&dir).unwrap();
+            let mk = || Swift { multi_file: true, should_emit_codable_void: AtomicBool::new(true), ..Default::default() };
+            mk().post_generation(&dir.to_string_lossy()).unwrap();
+            let f = dir.join("Codable.swift");
+            let (m1, c1) = (std::fs::metadata(&f).unwrap().modified().unwrap(), std::fs::read(&f).unwrap());
+            std::thread::sleep(std::time::Duration::from_millis(60));
+            mk().post_generation(&dir.to_string_lossy()).unwrap();
+            let (m2, c2) = (std::fs::metadata(&f).unwrap().modified().unwrap(), std::fs::read(&f).unwrap());
+            let _ = std::fs::remove_dir_all(&dir);
+            println!("{{\"file\": \"Codable.swift\", \"content_identical\": {}, \"mtime_preserved\": {}}}", c1 == c2, m1 == m2);
+            std::process::exit(if c1 == c2 && m1 == m2 { 0 } else { 1 });
+        }
         _ => { eprintln!("usage: verif-replay rename <rule> <field|variant> <ident>"); std::process::exit(2); }
     }
 }
